@@ -5,6 +5,7 @@ use crate::{BffFileName, ModuleItemAddress, ParsedModule, RuntypeUUID};
 
 #[derive(Debug, Clone)]
 pub enum DiagnosticInfoMessage {
+    TypeInstantiationIsTooDeep,
     TypeArgumentCountMismatch,
     CannotUseValueInTypePosition,
     CannotUseTypeInValuePosition,
@@ -576,6 +577,9 @@ impl DiagnosticInfoMessage {
             }
             DiagnosticInfoMessage::TypeArgumentCountMismatch => {
                 "Type argument count mismatch".to_string()
+            }
+            DiagnosticInfoMessage::TypeInstantiationIsTooDeep => {
+                "Type instantiation is too deep (a generic type that refers to itself with ever larger type arguments?)".to_string()
             }
             DiagnosticInfoMessage::MultipleIndexSignaturesNotSupported => {
                 "Multiple index signatures are not supported".to_string()
